@@ -31,4 +31,9 @@ def build(ctx: RunCtx) -> Prop:
         trusted_base=["pyvc VC generator", "z3 5.1", "cvc5 1.0.3"],
         not_decided="real reader/worker interleavings are not explored; value round trip through serializers is bounded (Hypothesis), not proved.",
         min_obligations=20,
+        # "the matching result": what is read back is what was stored - results/exceptions go through the client data store, whose reference key
+        # must address the whole content (verified in the C15 module's registry)
+        parts=[("contracts.c15", ["pynenc.client_data_store.base_client_data_store:_generate_key",
+                                  "pynenc.client_data_store.base_client_data_store:BaseClientDataStore._maybe_store",
+                                  "pynenc.client_data_store.base_client_data_store:BaseClientDataStore.resolve"])],
     )
